@@ -31,7 +31,7 @@ fn plan(tier: Tier, _seed: u64) -> Plan {
 		rule: "one case = (capacity 1..64, key-space size 2..3*capacity, operation mix, history of 10^3..10^5 operations from {add, get, get_or_set(Ok), get_or_set(Err)} with values unique per insertion). Non-trivial: the history passed through at least 3 evictions; distinct by (capacity, key space, seed of the history)".into(),
 		assumptions: vec![
 			"length and max_length are read from the cache's Debug output".into(),
-			"'just used' = the entry most recently returned by a hit or created by an insertion; the survival clause is asserted for capacity >= 2 only (capacity 1 cannot keep it and admit a new entry)".into(),
+			"'just used' = the entry most recently returned by a hit (get, get_or_set, or add of a key that is already cached) or created by an insertion; the survival clause is asserted for capacity >= 2 only (capacity 1 cannot keep it and admit a new entry)".into(),
 		],
 		min_evaluations: 50_000,
 		exhaustive: false,
@@ -68,6 +68,34 @@ enum Op {
 	LoadErr(u64),
 }
 
+/// the first steps of every history run without any extra read on the cache under test: a read is a use, and
+/// reads of the monitor's own would keep refreshing exactly the entries whose age matters. Whatever needs a
+/// read (read-your-write, survival of the entry used last, absence after a failed load) is asked of a *twin*
+/// rebuilt from the recorded operations.
+const PURE_STEPS: usize = 12_000;
+const MAX_TWINS: usize = 500;
+
+fn twin(size: usize, ops: &[(Op, u64)]) -> LimitedCache<u64, u64> {
+	let mut c: LimitedCache<u64, u64> = LimitedCache::with_maximum_size(size);
+	for (op, v) in ops {
+		match op {
+			Op::Add(k) => {
+				c.add(*k, *v);
+			}
+			Op::Get(k) => {
+				c.get(k);
+			}
+			Op::LoadOk(k) => {
+				let _ = c.get_or_set(k, || Ok(*v));
+			}
+			Op::LoadErr(k) => {
+				let _ = c.get_or_set(k, || Err(anyhow::anyhow!("loader failed on purpose")));
+			}
+		}
+	}
+	c
+}
+
 fn run_case(cx: &CaseCtx, rep: &mut Report) {
 	let mut rng = cx.rng();
 	let cap = (cx.case % CAPS) + 1;
@@ -90,7 +118,10 @@ fn run_case(cx: &CaseCtx, rep: &mut Report) {
 	PREV.with(|p| *p.borrow_mut() = None);
 	let r = guard::catch_strict_thread(|| {
 		let slack = rng.below(16) as usize; // maximum_size need not be a multiple of the element size
-		let mut cache: LimitedCache<u64, u64> = LimitedCache::with_maximum_size(16 * cap as usize + slack);
+		let size = 16 * cap as usize + slack;
+		let mut cache: LimitedCache<u64, u64> = LimitedCache::with_maximum_size(size);
+		let mut pure_ops: Vec<(Op, u64)> = Vec::new();
+		let mut twins = 0usize;
 		let mut ever: HashMap<u64, HashSet<u64>> = HashMap::new();
 		let mut next_val = 1u64;
 		let mut evictions = 0u64;
@@ -134,14 +165,25 @@ fn run_case(cx: &CaseCtx, rep: &mut Report) {
 						fail(rep, "add|foreign-value", "add returned a value never stored under that key");
 					}
 					inserted_new = r == v;
+					pure_ops.push((op, v));
 					// read-your-write
-					match cache.get(&k) {
-						Some(g) if g == r => {}
+					let ryw = if step >= PURE_STEPS {
+						Some(cache.get(&k))
+					} else if step % 53 == 0 && twins < MAX_TWINS {
+						twins += 1;
+						Some(twin(size, &pure_ops).get(&k))
+					} else {
+						None
+					};
+					match ryw {
+						None => {}
+						Some(Some(g)) if g == r => {}
 						_ => fail(rep, "add|not-readable", "value returned by add is not readable immediately afterwards"),
 					}
 					last_used_update(&mut last_used, k);
 				}
 				Op::Get(k) => {
+					pure_ops.push((op, 0));
 					match cache.get(&k) {
 						None => {}
 						Some(v) => {
@@ -156,6 +198,7 @@ fn run_case(cx: &CaseCtx, rep: &mut Report) {
 					let v = next_val;
 					next_val += 1;
 					let mut called = false;
+					pure_ops.push((op, v));
 					let r = cache.get_or_set(&k, || {
 						called = true;
 						Ok(v)
@@ -171,8 +214,17 @@ fn run_case(cx: &CaseCtx, rep: &mut Report) {
 							} else if !ever.get(&k).map(|s| s.contains(&g)).unwrap_or(false) {
 								fail(rep, "get_or_set|foreign-value", "get_or_set hit returned a value never stored under that key");
 							}
-							match cache.get(&k) {
-								Some(x) if x == g => {}
+							let ryw = if step >= PURE_STEPS {
+								Some(cache.get(&k))
+							} else if step % 53 == 1 && twins < MAX_TWINS {
+								twins += 1;
+								Some(twin(size, &pure_ops).get(&k))
+							} else {
+								None
+							};
+							match ryw {
+								None => {}
+								Some(Some(x)) if x == g => {}
 								_ => fail(rep, "get_or_set|not-readable", "value returned by get_or_set is not readable immediately afterwards"),
 							}
 							last_used = Some(k);
@@ -182,6 +234,7 @@ fn run_case(cx: &CaseCtx, rep: &mut Report) {
 				}
 				Op::LoadErr(k) => {
 					let mut called = false;
+					pure_ops.push((op, 0));
 					let r = cache.get_or_set(&k, || {
 						called = true;
 						Err(anyhow::anyhow!("loader failed on purpose"))
@@ -204,7 +257,15 @@ fn run_case(cx: &CaseCtx, rep: &mut Report) {
 							if after != before {
 								fail(rep, "get_or_set|error-modified-cache", "a failing loader changed the number of entries");
 							}
-							if cache.get(&k).is_some() {
+							let stored = if step >= PURE_STEPS {
+								cache.get(&k).is_some()
+							} else if twins < MAX_TWINS {
+								twins += 1;
+								twin(size, &pure_ops).get(&k).is_some()
+							} else {
+								false
+							};
+							if stored {
 								fail(rep, "get_or_set|error-stored", "a failing loader left an entry behind");
 							}
 						}
@@ -221,11 +282,18 @@ fn run_case(cx: &CaseCtx, rep: &mut Report) {
 						evictions += 1;
 						// the entry used immediately before this insertion must have survived
 						if let Some(prev) = prev_used(&last_used, &op) {
-							if cap >= 2 {
+							if cap >= 2 && (step >= PURE_STEPS || twins < MAX_TWINS) {
 								rep.count("survival_checks", 1);
-								if cache.get(&prev).is_none() {
-									fail(rep, &format!("survival|cap={}", if cap == 2 { "2" } else { ">=3" }), "the entry that was just used did not survive the next eviction");
+								let survived = if step >= PURE_STEPS {
+									cache.get(&prev).is_some()
 								} else {
+									twins += 1;
+									rep.count("survival_checks_without_touching_the_cache", 1);
+									twin(size, &pure_ops).get(&prev).is_some()
+								};
+								if !survived {
+									fail(rep, &format!("survival|cap={}", if cap == 2 { "2" } else { ">=3" }), "the entry that was just used did not survive the next eviction");
+								} else if step >= PURE_STEPS {
 									// the probe itself is a use: `prev` is now the most recently used entry
 									last_used = Some(prev);
 								}
